@@ -61,9 +61,9 @@ type Env struct {
 
 // SurveyEntry aggregates unlisted discrepancies of one shape (triage mode).
 type SurveyEntry struct {
-	Count   int64  `json:"count"`
-	Example *Disc  `json:"example"`
-	Case    any    `json:"case"`
+	Count   int64 `json:"count"`
+	Example *Disc `json:"example"`
+	Case    any   `json:"case"`
 }
 
 // Freeze stops statistics (called once a failure is being shrunk).
